@@ -120,6 +120,9 @@ pub struct Scn {
     pub clients: Vec<Client>,
     pub operator: Vec<OOp>,
     pub faults: Vec<PF>,
+    /// privileges.drop_privileges: the socket workers rendezvous at a barrier after binding (the chroot itself is not simulated)
+    #[serde(default)]
+    pub drop_priv: bool,
 }
 
 pub fn info_hash(t: u8) -> H20 {
@@ -256,6 +259,7 @@ fn client_addr(c: &Client) -> SocketAddr {
 
 fn build_config(scn: &Scn, dir: &std::path::Path) -> Config {
     let mut c = Config::default();
+    c.privileges.drop_privileges = scn.drop_priv;
     c.socket_workers = scn.socket_workers.max(1) as usize;
     match scn.layout % 4 {
         0 => {}
@@ -791,6 +795,7 @@ impl Harness for UdpSys {
             clients,
             operator,
             faults,
+            drop_priv: r.chance(300),
         }
     }
 
@@ -955,6 +960,10 @@ fn execute_once(scn: &Scn, prop: &str, stats: &mut Stats, entropy: u64) -> Outco
         }
         let sig = if msg.contains("overflow") { "arithmetic-overflow" } else { "tracker-thread-panic" };
         violations.push(Violation::new("C12", "no-panic-on-network-input", sig, format!("tracker thread {} panicked: {}", name, msg)));
+        // whatever property this run samples, a tracker that dies of its own accord no longer serves anybody
+        if prop != "C12" && scn.faults.is_empty() {
+            violations.push(Violation::new(prop, "tracker-stays-up", "tracker-thread-panic", format!("tracker thread {} panicked without an injected fault: {}", name, msg)));
+        }
     }
     let tname = |tid: usize| report.thread_names.get(tid).cloned().unwrap_or_default();
     // ---- C19: a dead worker brings the tracker down
@@ -1032,6 +1041,30 @@ fn execute_once(scn: &Scn, prop: &str, stats: &mut Stats, entropy: u64) -> Outco
     }
     let seq_time: BTreeMap<u64, u64> = report.events.iter().map(|e| (e.seq, e.now)).collect();
     let time_of = |seq: u64| seq_time.get(&seq).copied().unwrap_or(0);
+    // ---- bounded liveness: with no stall or death injected, a datagram queued on a tracker socket is read
+    // (a worker that never gets to its poll loop answers nobody)
+    if !scn.faults.iter().any(|f| matches!(f, PF::Stall { .. } | PF::Panic { .. } | PF::PanicAt { .. } | PF::BindFail { .. } | PF::EndLoop { .. } | PF::SpawnFail { .. } | PF::SignalsClose { .. })) {
+        let read: BTreeSet<u64> = net_events.iter().filter_map(|e| if let NetEvent::Recv { id, .. } = e { Some(*id) } else { None }).collect();
+        let mut never = 0u64;
+        let mut first: Option<(u64, SocketAddr, usize, u64)> = None;
+        for e in &net_events {
+            if let NetEvent::Inject { seq, id, src, sock, .. } = e {
+                let t = time_of(*seq);
+                if !read.contains(id) && t + 5_000_000_000 <= report.now_ns {
+                    never += 1;
+                    if first.is_none() {
+                        first = Some((*id, *src, *sock, t));
+                    }
+                }
+            }
+        }
+        stats.evaluations += 1;
+        if let Some((id, src, sock, t)) = first {
+            violations.push(Violation::new("C06", "datagrams-are-read", "socket-never-read", format!("{} datagrams queued on tracker sockets were never read although no worker was stalled or killed; first: datagram #{} from {} on socket {} queued at {} ms, run ended at {} ms (drop_privileges = {})", never, id, src, sock, t / 1_000_000, report.now_ns / 1_000_000, scn.drop_priv)));
+        } else {
+            stats.probe("all-queued-datagrams-read");
+        }
+    }
     let mut handled: Vec<Handled> = Vec::new();
     let mut cur: BTreeMap<usize, usize> = BTreeMap::new(); // tid -> index into handled
     let mut pending_failed: BTreeMap<usize, Vec<(SocketAddr, Vec<u8>, usize)>> = BTreeMap::new();
